@@ -8,6 +8,7 @@ package main
 
 import (
 	"fmt"
+	"go/token"
 	"go/types"
 	"sort"
 	"strings"
@@ -199,6 +200,14 @@ func (cc *canonCtx) expand(v ssa.Value, depth int) poly {
 			}
 		}
 	case *ssa.UnOp:
+		if x.Op == token.MUL {
+			// a variable of the enclosing function captured by a closure (`scale` inside the mapping function)
+			if _, isFree := x.X.(*ssa.FreeVar); isFree {
+				if vs := resolveCapturedLoad(x); len(vs) == 1 && vs[0] != ssa.Value(x) {
+					return cc.expand(vs[0], depth+1)
+				}
+			}
+		}
 		if x.Op.String() == "-" {
 			return polyMul(cc.expand(x.X, depth+1), poly{"": -1})
 		}
@@ -383,6 +392,37 @@ func checkIdentityTable(p *Program, r *Report, rule string, table map[string]ide
 				sites = append(sites, writeSite{oi: oi, val: callArgs(c2.Common())[1], at: c, subst: subst, scope: fmt.Sprintf("c%d", ci)})
 			}
 		}
+		mappedBy := map[int]*ssa.Function{}
+		// a series mapped by a helper: `mapSeries(in, out, func(v float64) float64 { … })` — the helper holds the time
+		// loop and stores f(in[i]) at out[i]; the value written is the closure's result with its parameter standing for
+		// the input at the loop's index
+		for _, c := range callsIn(k) {
+			h := c.Common().StaticCallee()
+			if h == nil || h.Blocks == nil || !InModule(h) || len(h.Params) != len(c.Common().Args) {
+				continue
+			}
+			a, b, f, ok := mapHelperShape(p, h)
+			if !ok {
+				continue
+			}
+			ii, okIn := inIdx[origin1(c.Common().Args[a])]
+			oi, okOut := outIdx[origin1(c.Common().Args[b])]
+			mc := closureValueOf(c.Common().Args[f])
+			if !okIn || !okOut || mc == nil {
+				continue
+			}
+			body, _ := mc.Fn.(*ssa.Function)
+			if body == nil || len(body.Params) != 1 {
+				continue
+			}
+			rets := returnsOf(body)
+			if len(rets) != 1 || len(rets[0].Results) != 1 {
+				continue
+			}
+			cc.names[body.Params[0]] = fmt.Sprintf("in%d", ii)
+			sites = append(sites, writeSite{oi: oi, val: rets[0].Results[0], at: c})
+			mappedBy[oi] = h
+		}
 		writes := map[int][]poly{}
 		var wpos = map[int]ssa.Instruction{}
 		for _, w := range sites {
@@ -395,6 +435,19 @@ func checkIdentityTable(p *Program, r *Report, rule string, table map[string]ide
 		}
 		// every iteration writes every output the identities speak about (a skipped write leaves the zero
 		// value in place and breaks the identity for that timestep)
+		if len(loops) == 0 {
+			// the time loop lives in a mapping helper, whose single store lies on every path round its loop (mapHelperShape)
+			var ois []int
+			for oi := range mappedBy {
+				ois = append(ois, oi)
+			}
+			sort.Ints(ois)
+			for _, oi := range ois {
+				if _, also := writes[oi]; also {
+					r.OK(rule, fmt.Sprintf("%s: output `%s` is written on every path through a timestep", key, m.Outputs[oi]))
+				}
+			}
+		}
 		if len(loops) == 1 {
 			l := loops[0]
 			var latches []*ssa.BasicBlock
@@ -528,4 +581,66 @@ func checkIdentityTable(p *Program, r *Report, rule string, table map[string]ide
 		}
 	}
 	r.Floor(rule, "models with identities", n, floor)
+}
+
+// mapHelperShape: h(in, out ND, f func(float64) float64) with one counting loop over the length of `in` whose body is
+// out.Set(idx, f(in.Get(idx))) at the loop's own index: positions of in, out and f among h's parameters.
+func mapHelperShape(p *Program, h *ssa.Function) (a, b, f int, ok bool) {
+	loops := timeLoops(h)
+	if len(loops) != 1 {
+		return 0, 0, 0, false
+	}
+	ind := loopInduction(loops[0])
+	if ind == nil {
+		return 0, 0, 0, false
+	}
+	eff := nil2eff(p)
+	atInd := func(v ssa.Value, at ssa.Instruction) bool {
+		if isIntVec(v.Type()) {
+			vals, _, unk := vecElemAt(eff, origin1(v), 0, at)
+			return unk == "" && len(vals) == 1 && origin1(vals[0]) == ssa.Value(ind)
+		}
+		return origin1(v) == ssa.Value(ind)
+	}
+	pidx := func(v ssa.Value) int {
+		o := origin1(v)
+		for i, prm := range h.Params {
+			if o == ssa.Value(prm) {
+				return i
+			}
+		}
+		return -1
+	}
+	n := 0
+	for _, c := range callsIn(h) {
+		nm := callName(c.Common())
+		if nm != "Set" && nm != "Set1" {
+			continue
+		}
+		n++
+		recv := recvOf(c.Common())
+		args := callArgs(c.Common())
+		if recv == nil || len(args) != 2 || !atInd(args[0], c) {
+			return 0, 0, 0, false
+		}
+		fc, isCall := args[1].(*ssa.Call)
+		if !isCall || fc.Common().IsInvoke() || len(fc.Common().Args) != 1 {
+			return 0, 0, 0, false
+		}
+		gc, isGet := fc.Common().Args[0].(*ssa.Call)
+		if !isGet || (callName(gc.Common()) != "Get" && callName(gc.Common()) != "Get1") || recvOf(gc.Common()) == nil || !atInd(callArgs(gc.Common())[0], gc) {
+			return 0, 0, 0, false
+		}
+		a, b, f = pidx(recvOf(gc.Common())), pidx(recv), pidx(fc.Common().Value)
+		// every iteration stores: the store lies on every path round the loop
+		for _, pr := range loops[0].Header.Preds {
+			if loops[0].Blocks[pr] && !c.Block().Dominates(pr) {
+				return 0, 0, 0, false
+			}
+		}
+	}
+	if n != 1 || a < 0 || b < 0 || f < 0 {
+		return 0, 0, 0, false
+	}
+	return a, b, f, true
 }
